@@ -2,6 +2,7 @@
 generated cases, audit, evidence, replays, known findings."""
 import fcntl
 import hashlib
+import glob
 import json
 import os
 import re
@@ -237,6 +238,7 @@ def coq_eval(name, imports, defs, cases, checker, shard=400, timeout=900):
     or raises RuntimeError with the log."""
     d = os.path.join(BUILD, "cases")
     os.makedirs(d, exist_ok=True)
+    name = "%s_p%d" % (name, os.getpid())        # several checks may run at the same time
     shards = [cases[i:i + shard] for i in range(0, len(cases), shard)]
     paths = []
     for si, sc in enumerate(shards):
@@ -289,6 +291,11 @@ def coq_eval(name, imports, defs, cases, checker, shard=400, timeout=900):
             raise RuntimeError("case/result count mismatch in shard %d of %s: %d vs %d" % (
                 i, name, len(r), len(shards[i])))
         codes.extend(r)
+    for f in glob.glob(os.path.join(d, name + "_*")) + glob.glob(os.path.join(d, "." + name + "_*")):
+        try:
+            os.remove(f)
+        except OSError:
+            pass
     return codes
 
 
@@ -296,6 +303,7 @@ def coq_show(name, imports, defs, term, timeout=300):
     """Evaluate one term and return Coq's printed normal form (for replays)."""
     d = os.path.join(BUILD, "cases")
     os.makedirs(d, exist_ok=True)
+    name = "%s_p%d" % (name, os.getpid())
     path = os.path.join(d, name + "_show.v")
     with open(path, "w") as f:
         f.write(imports + "\n" + defs + "\nEval vm_compute in (%s).\n" % term)
